@@ -157,12 +157,31 @@ module.exports = {
     const shards = []
     for (let k = 0; k < Math.ceil(n / per); k++) shards.push({ kind: 'cfg', count: per, stream: k })
     shards.push({ kind: 'defaults' })
+    shards.push({ kind: 'miri', calls: ctx.tier === 'thorough' ? 4000 : 400 })
     return shards
   },
   minEvaluations () { return 300 },
   async runShard (spec, ctx) {
     const rep = { evaluations: 0, distinct: [], violations: [], inconclusive: [], samples: [], counters: {}, sets: { hook_names_seen: [] } }
     const bump = (k, n = 1) => { rep.counters[k] = (rep.counters[k] || 0) + n }
+    if (spec.kind === 'miri') {
+      // the only unsafe block of the repository (util::rnd_string, get_unchecked) under the UB interpreter, in isolation
+      const { spawnSync } = require('child_process')
+      const path = require('path')
+      const dir = path.join(__dirname, '..', '..', 'miri_util')
+      const env = Object.assign({}, process.env, { CARGO_NET_OFFLINE: 'true', CARGO_TARGET_DIR: path.join(__dirname, '..', '..', '.build', 'miri'), MIRIFLAGS: ctx.tier === 'thorough' ? '-Zmiri-many-seeds=0..4' : '' })
+      const r = spawnSync('cargo', ['+nightly', 'miri', 'run', '--offline', '--', String(spec.calls)], { cwd: dir, env, encoding: 'utf8', timeout: 900000, maxBuffer: 1 << 26 })
+      const all = (r.stdout || '') + (r.stderr || '')
+      if (/Undefined Behavior|error: unsupported operation|panicked at/.test(all)) {
+        rep.violations.push({ sig: 'miri:' + clip((all.match(/(Undefined Behavior[^\n]*|panicked at[^\n]*\n[^\n]*)/) || ['report'])[0].replace(/\d+/g, 'N'), 90), what: 'Miri reported on util.rs (rnd_string / file_name): ' + clip(all.slice(all.search(/Undefined Behavior|panicked at/)), 1200), witness: { calls: spec.calls } })
+      } else if (r.status === 0 && /rnd_string: \d+ calls/.test(all)) {
+        const m = /rnd_string: (\d+) calls, (\d+) distinct/.exec(all)
+        rep.evaluations += 1
+        rep.distinct.push('miri-run-a', 'miri-run-b')
+        bump('miri_rnd_string_calls', (+m[1]) * (ctx.tier === 'thorough' ? 4 : 1)); bump('miri_runs')
+      } else rep.inconclusive.push({ reason: 'miri-unavailable', detail: clip(all, 300) })
+      return rep
+    }
     if (spec.kind === 'defaults') {
       // undeserialisable / wrong-typed configs fall back to documented defaults; omitted prefix is random per rewriter
       const h = new Harness()
